@@ -85,9 +85,13 @@ func c18Run(ctx *core.Ctx) {
 				emitAll([][]c18Rcpt{t1, t2})
 			}
 		}
-		for i := 0; i < len(txns); i += 3 {
-			for j := 1; j < len(txns); j += 5 {
-				for k := 2; k < len(txns); k += 7 {
+		si, sj, sk := 3, 5, 7
+		if ctx.Thorough() {
+			si, sj, sk = 1, 2, 3
+		}
+		for i := 0; i < len(txns); i += si {
+			for j := 1; j < len(txns); j += sj {
+				for k := 2; k < len(txns); k += sk {
 					emitAll([][]c18Rcpt{txns[i], txns[j], txns[k]})
 				}
 			}
